@@ -81,7 +81,7 @@ theorem wf_eraseAll (cs : List Cid) (t : Table) (h : WF t) : WF (eraseAll t cs) 
 
 end Table
 
-def OwnsC (cn : Conn) (c : Cid) : Prop := some c ∈ cn.loc.dq ∨ cn.odcid = some c
+def OwnsC (cn : Conn) (c : Cid) : Prop := some c ∈ cn.loc.dq ∨ (cn.odcid = some c ∧ cn.olive = true)
 
 /-- connection `k` currently owns id `c`: issued and unretired in its `LocalCids`, or its registered original DCID -/
 def Owns (s : Sys) (k : Nat) (c : Cid) : Prop := ∃ cn, s.conns[k]? = some cn ∧ OwnsC cn c
@@ -115,12 +115,16 @@ theorem mem_active (l : Local) (x : Cid) : x ∈ l.active ↔ some x ∈ l.dq :=
   simp [Local.active, List.mem_filterMap]
 
 /-- nobody owns an id that has not been generated yet -/
-theorem Inv.fresh {s : Sys} (hi : Inv s) (m : Nat) (hm : s.next ≤ m) (j : Nat) : ¬ Owns s j (.gen m) := by
+theorem owns_fresh {s : Sys} (hconn : ∀ (k : Nat) (cn : Conn), s.conns[k]? = some cn → CInv s.next cn)
+    (m : Nat) (hm : s.next ≤ m) (j : Nat) : ¬ Owns s j (.gen m) := by
   rintro ⟨cn, h1, h2⟩
-  have hc := hi.conn j cn h1
+  have hc := hconn j cn h1
   rcases h2 with h2 | h2
   · have := hc.bound m h2; omega
-  · have := (hc.od _ h2).2 m rfl; omega
+  · have := (hc.od _ h2.1).2 m rfl; omega
+
+theorem Inv.fresh {s : Sys} (hi : Inv s) (m : Nat) (hm : s.next ≤ m) (j : Nat) : ¬ Owns s j (.gen m) :=
+  owns_fresh hi.conn m hm j
 
 theorem Inv.owner_unique {s : Sys} (hi : Inv s) {j k : Nat} {x : Cid} (h1 : Owns s j x) (h2 : Owns s k x) : j = k := by
   have a := (hi.dom x j).2 h1
@@ -175,7 +179,7 @@ theorem wf_insertAll (fs : List NewCid) (t : Table) (k : Nat) (h : t.WF) : (Sys.
 
 /-- a change of fields that neither routing nor the id bookkeeping looks at -/
 theorem inv_set_same {s : Sys} (hi : Inv s) {k : Nat} {c : Conn} (hk : s.conns[k]? = some c) (c' : Conn)
-    (h1 : c'.loc = c.loc) (h2 : c'.odcid = c.odcid) (h3 : c'.frames = c.frames) :
+    (h1 : c'.loc = c.loc) (h2 : c'.odcid = c.odcid) (h3 : c'.frames = c.frames) (h4 : c'.olive = c.olive) :
     Inv { next := s.next, table := s.table, conns := s.conns.set k c' } := by
   have hc := hi.conn k c hk
   apply inv_set hi hk (Nat.le_refl _) hi.wf
@@ -184,7 +188,7 @@ theorem inv_set_same {s : Sys} (hi : Inv s) {k : Nat} {c : Conn} (hk : s.conns[k
   · intro x j
     rw [hi.dom x j]
     by_cases h : j = k
-    · subst h; simp only [if_true]; rw [owns_iff hk]; unfold OwnsC; rw [h1, h2]
+    · subst h; simp only [if_true]; rw [owns_iff hk]; unfold OwnsC; rw [h1, h2, h4]
     · simp [h]
 
 theorem nodup_map_gen (l : List Nat) (h : l.Nodup) : (l.map Cid.gen).Nodup := by
@@ -286,7 +290,7 @@ theorem inv_setLimit {s : Sys} (hi : Inv s) {k : Nat} {c : Conn} (hk : s.conns[k
         simp only [if_true]
         rw [owns_iff hk]
         unfold OwnsC
-        show some x ∈ c.loc.dq ∨ c.odcid = some x ↔ some x ∈ l.dq ∨ c.odcid = some x
+        show some x ∈ c.loc.dq ∨ (c.odcid = some x ∧ c.olive = true) ↔ some x ∈ l.dq ∨ (c.odcid = some x ∧ c.olive = true)
         rw [hmem]
         constructor
         · rintro (h | h); exact Or.inl (Or.inl h); exact Or.inr h
@@ -331,7 +335,7 @@ theorem inv_retire {s : Sys} (hi : Inv s) {k : Nat} {c : Conn} (hk : s.conns[k]?
       rw [(Local.retire_retired h).2.2.2.2.2.2] at hm; exact hc.lim m hm
   · intro x j
     rw [Table.lookup_erase, Table.lookup_insert, hfcid]
-    show _ ↔ if j = k then (some x ∈ l.dq ∨ c.odcid = some x) else Owns s j x
+    show _ ↔ if j = k then (some x ∈ l.dq ∨ (c.odcid = some x ∧ c.olive = true)) else Owns s j x
     rw [hmem]
     by_cases hxo : x = old
     · subst hxo
@@ -345,7 +349,7 @@ theorem inv_retire {s : Sys} (hi : Inv s) {k : Nat} {c : Conn} (hk : s.conns[k]?
           rcases hh with (e | ⟨_, e⟩) | e
           · exact absurd e hne
           · exact absurd rfl e
-          · exact absurd hold (hc.od _ e).1
+          · exact absurd hold (hc.od _ e.1).1
         · simp only [hj, if_false] at hh
           exact absurd (hi.owner_unique hh holdk) hj
     · simp only [hxo, if_false]
@@ -369,7 +373,7 @@ theorem inv_retire {s : Sys} (hi : Inv s) {k : Nat} {c : Conn} (hk : s.conns[k]?
         · simp [hj]
 
 theorem inv_clear {s : Sys} (hi : Inv s) {k : Nat} {c : Conn} (hk : s.conns[k]? = some c) (c' : Conn)
-    (h1 : c'.loc = c.loc.clear.1) (h2 : c'.odcid = c.odcid) (h3 : c'.frames = c.frames) :
+    (h1 : c'.loc = c.loc.clear.1) (h2 : c'.odcid = c.odcid) (h3 : c'.frames = c.frames) (h4 : c'.olive = c.olive) :
     Inv { next := s.next, table := s.table.eraseAll c.loc.clear.2, conns := s.conns.set k c' } := by
   have hc := hi.conn k c hk
   apply inv_set hi hk (Nat.le_refl _) (Table.wf_eraseAll _ _ hi.wf)
@@ -385,7 +389,7 @@ theorem inv_clear {s : Sys} (hi : Inv s) {k : Nat} {c : Conn} (hk : s.conns[k]? 
     show _ ↔ if j = k then OwnsC c' x else Owns s j x
     have hcl : c.loc.clear.2 = c.loc.active := rfl
     simp only [hcl, mem_active]
-    have hoc : OwnsC c' x ↔ c.odcid = some x := by unfold OwnsC; rw [h1, h2]; simp [Local.clear]
+    have hoc : OwnsC c' x ↔ (c.odcid = some x ∧ c.olive = true) := by unfold OwnsC; rw [h1, h2, h4]; simp [Local.clear]
     by_cases hx : some x ∈ c.loc.dq
     · simp only [hx, if_true]
       have hxk : Owns s k x := (owns_iff hk x).2 (Or.inl hx)
@@ -395,7 +399,7 @@ theorem inv_clear {s : Sys} (hi : Inv s) {k : Nat} {c : Conn} (hk : s.conns[k]? 
         by_cases hj : j = k
         · subst hj
           simp only [if_true] at hh
-          exact absurd hx (hc.od _ (hoc.1 hh)).1
+          exact absurd hx (hc.od _ (hoc.1 hh).1).1
         · simp only [hj, if_false] at hh
           exact absurd (hi.owner_unique hh hxk) hj
     · simp only [hx, if_false]
@@ -412,27 +416,41 @@ theorem inv_dropOdcid {s : Sys} (hi : Inv s) {k : Nat} {c : Conn} (hk : s.conns[
     (hod : c.odcid = some od) :
     Inv { next := s.next, table := s.table.removeIf od k, conns := s.conns.set k { c with odcid := none } } := by
   have hc := hi.conn k c hk
-  have hodk : Owns s k od := (owns_iff hk od).2 (Or.inr hod)
-  have hl : s.table.lookup od = some k := (hi.dom od k).2 hodk
+  have hnd : some od ∉ c.loc.dq := (hc.od _ hod).1
   apply inv_set hi hk (Nat.le_refl _) (Table.wf_removeIf _ _ _ hi.wf)
   · exact ⟨hc.nodup, hc.bound, (by intro x hx; cases hx), hc.largest, hc.seqs, hc.act, hc.lim⟩
   · intro x j
     rw [Table.lookup_removeIf _ hi.wf]
-    show _ ↔ if j = k then (some x ∈ c.loc.dq ∨ none = some x) else Owns s j x
+    show _ ↔ if j = k then (some x ∈ c.loc.dq ∨ (none = some x ∧ c.olive = true)) else Owns s j x
     by_cases hx : x = od
     · subst hx
-      simp only [hl, and_self, if_true]
-      constructor
-      · intro e; cases e
-      · intro hh
+      by_cases hl : s.table.lookup x = some k
+      · -- the entry still owns the route: it is removed
+        have hodk : Owns s k x := (hi.dom x k).1 hl
+        simp only [hl, and_self, if_true]
+        constructor
+        · intro e; cases e
+        · intro hh
+          by_cases hj : j = k
+          · subst hj
+            simp only [if_true] at hh
+            rcases hh with h | ⟨h, _⟩
+            · exact absurd h hnd
+            · cases h
+          · simp only [hj, if_false] at hh
+            exact absurd (hi.owner_unique hh hodk) hj
+      · -- superseded entry (another connection re-registered the signpost): `remove_if` leaves the table alone
+        simp only [hl, and_false, if_false]
+        rw [hi.dom x j]
         by_cases hj : j = k
         · subst hj
-          simp only [if_true] at hh
-          rcases hh with h | h
-          · exact absurd h (hc.od _ hod).1
-          · cases h
-        · simp only [hj, if_false] at hh
-          exact absurd (hi.owner_unique hh hodk) hj
+          simp only [if_true]
+          constructor
+          · intro ho; exact absurd ((hi.dom x j).2 ho) hl
+          · rintro (h | ⟨h, _⟩)
+            · exact absurd h hnd
+            · cases h
+        · simp [hj]
     · simp only [hx, false_and, if_false]
       rw [hi.dom x j]
       by_cases hj : j = k
@@ -441,19 +459,30 @@ theorem inv_dropOdcid {s : Sys} (hi : Inv s) {k : Nat} {c : Conn} (hk : s.conns[
         rw [owns_iff hk]
         unfold OwnsC
         rw [hod]
-        simp
-        intro e; exact absurd e.symm hx
+        constructor
+        · rintro (h | ⟨h, _⟩)
+          · exact Or.inl h
+          · cases h; exact absurd rfl hx
+        · rintro (h | ⟨h, _⟩)
+          · exact Or.inl h
+          · cases h
       · simp [hj]
 
-theorem inv_conn {s : Sys} (hi : Inv s) (od : Option Cid)
-    (hod : ∀ c, od = some c → s.table.lookup c = none ∧ ∀ n, c = .gen n → n < s.next) :
-    Inv (s.step (.conn od)).1 := by
-  show Inv { next := s.next + 2,
+/-- `Inv` with the table entry of one signpost left open: the state between "another connection's entry for `od` has lost
+its route" and "the new connection has registered `od`" -/
+structure InvX (od : Option Cid) (s : Sys) : Prop where
+  wf : s.table.WF
+  dom : ∀ (c : Cid) (k : Nat), od ≠ some c → (s.table.lookup c = some k ↔ Owns s k c)
+  conn : ∀ (k : Nat) (cn : Conn), s.conns[k]? = some cn → CInv s.next cn
+  free : ∀ c, od = some c → (∀ j, ¬ Owns s j c) ∧ ∀ n, c = .gen n → n < s.next
+
+theorem inv_conn_core {s : Sys} (od : Option Cid) (hi : InvX od s) :
+    Inv { next := s.next + 2,
              table := Table.insert (odInsert (Table.insert s.table (.gen s.next) s.conns.length) od s.conns.length)
                         (.gen (s.next + 1)) s.conns.length,
              conns := s.conns ++ [{ loc := { off := 0, dq := [some (.gen s.next), some (.gen (s.next + 1))], limit := none },
-                                    poisoned := false, dropped := false, odcid := od,
-                                    frames := [{ seq := 1, rpt := 0, cid := .gen (s.next + 1) }] }] }
+                                    poisoned := false, dropped := false, odcid := od, olive := true,
+                                    frames := [{ seq := 1, rpt := 0, cid := .gen (s.next + 1) }] }] } := by
   have hget : ∀ (cn : Conn) (j : Nat), (s.conns ++ [cn])[j]? = if j = s.conns.length then some cn else s.conns[j]? := by
     intro cn j
     rcases Nat.lt_trichotomy j s.conns.length with h | h | h
@@ -468,10 +497,7 @@ theorem inv_conn {s : Sys} (hi : Inv s) (od : Option Cid)
   have hnone : ∀ x, ¬ Owns s s.conns.length x := by
     rintro x ⟨cn, h1, _⟩
     rw [List.getElem?_eq_none (Nat.le_refl _)] at h1; cases h1
-  have hod_notowned : ∀ c, od = some c → ∀ j, ¬ Owns s j c := by
-    intro c hc j ho
-    have := (hi.dom c j).2 ho
-    rw [(hod c hc).1] at this; cases this
+  have hod_notowned : ∀ c, od = some c → ∀ j, ¬ Owns s j c := fun c hc => (hi.free c hc).1
   refine ⟨?_, ?_, ?_⟩
   · exact Table.wf_insert _ _ _ (wf_odInsert _ _ _ (Table.wf_insert _ _ _ hi.wf))
   · intro x j
@@ -488,37 +514,37 @@ theorem inv_conn {s : Sys} (hi : Inv s) (od : Option Cid)
       unfold OwnsC
       simp only [List.mem_cons, Option.some.injEq, List.not_mem_nil, or_false]
       have := hnone x
-      have h0 := hi.dom x s.conns.length
       constructor
       · intro h
         split at h
         · rename_i hc; rcases hc with h1 | h1 | h1
           · exact Or.inl (Or.inr h1)
-          · exact Or.inr h1
+          · exact Or.inr ⟨h1, trivial⟩
           · exact Or.inl (Or.inl h1)
-        · exact absurd (h0.1 h) this
+        · rename_i hc
+          exact absurd ((hi.dom x s.conns.length (fun e => hc (Or.inr (Or.inl e)))).1 h) this
       · intro h
         have : x = Cid.gen (s.next + 1) ∨ od = some x ∨ x = Cid.gen s.next := by
-          rcases h with (h | h) | h
+          rcases h with (h | h) | ⟨h, _⟩
           · exact Or.inr (Or.inr h)
           · exact Or.inl h
           · exact Or.inr (Or.inl h)
         simp [this]
     · simp only [hj, if_false]
-      have h0 := hi.dom x j
       constructor
       · intro h
         split at h
         · cases h; exact absurd rfl hj
-        · exact h0.1 h
+        · rename_i hc
+          exact (hi.dom x j (fun e => hc (Or.inr (Or.inl e)))).1 h
       · intro ho
         have hne : ¬ (x = Cid.gen (s.next + 1) ∨ od = some x ∨ x = Cid.gen s.next) := by
           rintro (h | h | h)
-          · subst h; exact hi.fresh _ (by omega) j ho
+          · subst h; exact owns_fresh hi.conn _ (by omega) j ho
           · exact hod_notowned x h j ho
-          · subst h; exact hi.fresh _ (Nat.le_refl _) j ho
+          · subst h; exact owns_fresh hi.conn _ (Nat.le_refl _) j ho
         simp only [hne, if_false]
-        exact h0.2 ho
+        exact (hi.dom x j (fun e => hne (Or.inr (Or.inl e)))).2 ho
   · intro j cn hj
     show CInv (s.next + 2) cn
     simp only [hget] at hj
@@ -530,7 +556,7 @@ theorem inv_conn {s : Sys} (hi : Inv s) (od : Option Cid)
       · intro m hm; simp at hm; omega
       · intro x hx
         simp only at hx
-        have := (hod x hx).2
+        have := (hi.free x hx).2
         refine ⟨?_, fun m e => by have := this m e; omega⟩
         simp only [List.mem_cons, Option.some.injEq, List.not_mem_nil, or_false]
         rintro (e | e)
@@ -543,18 +569,104 @@ theorem inv_conn {s : Sys} (hi : Inv s) (od : Option Cid)
     · simp only [h, if_false] at hj
       exact (hi.conn j cn hj).mono (by omega)
 
-/-- the client-chosen original DCID of a new server connection is not a key of the router table at that moment
-(`QuicRouter::deliver` creates a connection only for a packet that found no entry) and, if it is a generated
-name, it has already been generated -/
-def OdcidFresh (s : Sys) : Op → Prop
-  | .conn (some c) => s.table.lookup c = none ∧ (∀ n, c = .gen n → n < s.next)
+/-- the only hypothesis on histories: the original DCID a new server connection registers is not an id that some connection
+has issued and not retired (it was chosen by a client; `QuicRouter::deliver` creates a connection only for a packet that
+found no entry) and, if it is a generated name, it has already been generated.  It MAY be a signpost that another
+connection registered the same way and still holds the entry of: `QuicRouter::insert` then takes the route over. -/
+def OdcidNotIssued (s : Sys) : Op → Prop
+  | .conn (some c) => (∀ cn ∈ s.conns, some c ∉ cn.loc.dq) ∧ (∀ n, c = .gen n → n < s.next)
   | _ => True
 
-theorem inv_step {s : Sys} (hi : Inv s) (o : Op) (hf : OdcidFresh s o) : Inv (s.step o).1 := by
+theorem ownsC_supersede_ne (c x : Cid) (cn : Conn) (h : x ≠ c) : OwnsC (Sys.supersedeC c cn) x ↔ OwnsC cn x := by
+  unfold OwnsC Sys.supersedeC
+  split
+  · rename_i h1
+    simp only
+    constructor
+    · rintro (a | ⟨_, b⟩)
+      · exact Or.inl a
+      · cases b
+    · rintro (a | ⟨a, _⟩)
+      · exact Or.inl a
+      · rw [h1] at a; cases a; exact absurd rfl h
+  · exact Iff.rfl
+
+theorem not_ownsC_supersede (c : Cid) (cn : Conn) (h : some c ∉ cn.loc.dq) : ¬ OwnsC (Sys.supersedeC c cn) c := by
+  unfold OwnsC Sys.supersedeC
+  split
+  · rintro (a | ⟨_, b⟩)
+    · exact h a
+    · cases b
+  · rename_i h1
+    rintro (a | ⟨a, _⟩)
+    · exact h a
+    · exact h1 a
+
+theorem cinv_supersede (c : Cid) (cn : Conn) (next : Nat) (h : CInv next cn) : CInv next (Sys.supersedeC c cn) := by
+  unfold Sys.supersedeC
+  split
+  · exact ⟨h.nodup, h.bound, h.od, h.largest, h.seqs, h.act, h.lim⟩
+  · exact h
+
+theorem invx_supersede {s : Sys} (hi : Inv s) (od : Option Cid) (hf : OdcidNotIssued s (.conn od)) :
+    InvX od (Sys.supersede s od) := by
+  cases od with
+  | none => exact ⟨hi.wf, fun c k _ => hi.dom c k, hi.conn, fun c h => by cases h⟩
+  | some c =>
+    have hget : ∀ j : Nat, (Sys.supersede s (some c)).conns[j]? = (s.conns[j]?).map (Sys.supersedeC c) := by
+      intro j; show (s.conns.map _)[j]? = _; exact List.getElem?_map
+    refine ⟨hi.wf, ?_, ?_, ?_⟩
+    · intro x k hne
+      have hx : x ≠ c := fun e => hne (by rw [e])
+      show s.table.lookup x = some k ↔ _
+      rw [hi.dom x k]
+      unfold Owns
+      rw [hget]
+      constructor
+      · rintro ⟨cn, h1, h2⟩
+        exact ⟨_, by rw [h1]; rfl, (ownsC_supersede_ne c x cn hx).2 h2⟩
+      · rintro ⟨cn', h1, h2⟩
+        cases hk : s.conns[k]? with
+        | none => rw [hk] at h1; cases h1
+        | some cn =>
+          rw [hk] at h1
+          simp only [Option.map_some, Option.some.injEq] at h1
+          subst h1
+          exact ⟨cn, rfl, (ownsC_supersede_ne c x cn hx).1 h2⟩
+    · intro k cn' h1
+      rw [hget] at h1
+      cases hk : s.conns[k]? with
+      | none => rw [hk] at h1; cases h1
+      | some cn =>
+        rw [hk] at h1
+        simp only [Option.map_some, Option.some.injEq] at h1
+        subst h1
+        exact cinv_supersede c cn _ (hi.conn k cn hk)
+    · intro x hx
+      cases hx
+      refine ⟨?_, hf.2⟩
+      rintro j ⟨cn', h1, h2⟩
+      rw [hget] at h1
+      cases hk : s.conns[j]? with
+      | none => rw [hk] at h1; cases h1
+      | some cn =>
+        rw [hk] at h1
+        simp only [Option.map_some, Option.some.injEq] at h1
+        subst h1
+        exact not_ownsC_supersede c cn (hf.1 cn (List.mem_of_getElem? hk)) h2
+
+theorem inv_conn {s : Sys} (hi : Inv s) (od : Option Cid) (hf : OdcidNotIssued s (.conn od)) :
+    Inv (s.step (.conn od)).1 := by
+  have h := inv_conn_core od (invx_supersede hi od hf)
+  have hlen : (Sys.supersede s od).conns.length = s.conns.length := by
+    cases od with
+    | none => rfl
+    | some c => show (s.conns.map _).length = _; simp
+  exact h
+
+theorem inv_step {s : Sys} (hi : Inv s) (o : Op) (hf : OdcidNotIssued s o) : Inv (s.step o).1 := by
   cases o with
-  | conn od =>
-    apply inv_conn hi od
-    intro c hc; subst hc; exact hf
+  | conn od => exact inv_conn hi od hf
   | setLimit k n =>
     simp only [Sys.step]
     split
@@ -563,7 +675,7 @@ theorem inv_step {s : Sys} (hi : Inv s) (o : Op) (hf : OdcidFresh s o) : Inv (s.
       split; · exact hi
       split; · exact hi
       split
-      · exact inv_set_same hi hk _ rfl rfl rfl
+      · exact inv_set_same hi hk _ rfl rfl rfl rfl
       · exact hi
       · rename_i l fs hsl; exact inv_setLimit hi hk hsl
   | retire k seq =>
@@ -584,14 +696,14 @@ theorem inv_step {s : Sys} (hi : Inv s) (o : Op) (hf : OdcidFresh s o) : Inv (s.
     · rename_i c hk
       split; · exact hi
       split; · exact hi
-      exact inv_clear hi hk _ rfl rfl rfl
+      exact inv_clear hi hk _ rfl rfl rfl rfl
   | drop k =>
     simp only [Sys.step]
     split
     · exact hi
     · rename_i c hk
       split; · exact hi
-      exact inv_clear hi hk _ rfl rfl rfl
+      exact inv_clear hi hk _ rfl rfl rfl rfl
   | dropOdcid k =>
     simp only [Sys.step]
     split
@@ -600,6 +712,9 @@ theorem inv_step {s : Sys} (hi : Inv s) (o : Op) (hf : OdcidFresh s o) : Inv (s.
       split
       · exact hi
       · rename_i od hod; exact inv_dropOdcid hi hk hod
+  | relQueue k =>
+    simp only [Sys.step]
+    split <;> exact hi
   | route c => exact hi
 
 theorem inv_init : Inv Sys.init := by
@@ -610,7 +725,7 @@ theorem inv_init : Inv Sys.init := by
 /-- every connection-creating op of the history is fresh at its own moment -/
 def Hist : Sys → List Op → Prop
   | _, [] => True
-  | s, o :: rest => OdcidFresh s o ∧ Hist (s.step o).1 rest
+  | s, o :: rest => OdcidNotIssued s o ∧ Hist (s.step o).1 rest
 
 def Sys.runFrom (s : Sys) (ops : List Op) : Sys := ops.foldl (fun s o => (s.step o).1) s
 
